@@ -137,9 +137,10 @@ class ESpec:
 
     def model_lines(self):
         b = lambda x: '1' if x else '0'
-        out = ['enum %s name=%s style=%s ci=%s prefix=%s phf=%s err=%s repr=%s cis=%s dname=%s dvis=%d'
+        out = ['enum %s name=%s style=%s ci=%s prefix=%s phf=%s err=%s repr=%s cis=%s dname=%s dvis=%d reprraw=%s'
                % (self.id, hx(self.name), self.style or '-', b(self.ci), opt(self.prefix), b(self.phf), b(self.err),
-                  self.repr or '-', b(self.cis), opt(self.extra.get('dname')), self.extra.get('dvis', 0))]
+                  self.repr or '-', b(self.cis), opt(self.extra.get('dname')), self.extra.get('dvis', 0),
+                  opt(self.extra.get('repr_raw') or self.repr))]
         for v in self.variants:
             out.append(v.model_line(self.id))
         return out
